@@ -35,6 +35,8 @@ func runC03(r *engine.Run) {
 	whoPrev(r)
 	domMerge(r)
 	cloneStore(r)
+	r.Rule("CLONE-node", "no CloneNode() of a trie node kind fills a pointer-typed field of the clone (the embedded origin tracker, a branch's value node) with the pointer loaded from the receiver: the clone is what the trie modifies (SetValue, SetOrigin) to build a changed node and what the memory store keeps, so a shared object lets an unmerged child edit the parent's stored node")
+	cloneNodeFresh(r, "CLONE-node")
 	freshNode(r, "C03")
 	agreeMergeSnapshot(r, "AGREE-snapshot")
 	domCancel(r)
@@ -59,14 +61,37 @@ func whoPrev(r *engine.Run) {
 		o := ord{}
 		engine.Instrs(f, func(in ssa.Instruction) {
 			c, ok := in.(ssa.CallInstruction)
-			if !ok || !c.Common().IsInvoke() || !isNamed(c.Common().Value.Type(), pkgUtil, "NodeDB") {
+			if !ok {
 				return
 			}
-			m := c.Common().Method.Name()
+			var recv ssa.Value
+			m := ""
+			switch {
+			case c.Common().IsInvoke() && isNamed(c.Common().Value.Type(), pkgUtil, "NodeDB"):
+				recv, m = c.Common().Value, c.Common().Method.Name()
+			case c.Common().StaticCallee() != nil && c.Common().StaticCallee().Signature.Recv() != nil && len(c.Common().Args) > 0:
+				// a store method called on the concrete store a level field was asserted to
+				recv, m = c.Common().Args[0], c.Common().StaticCallee().Name()
+				for i := 0; i < 4; i++ {
+					recv = through(recv)
+					if ex, ok := recv.(*ssa.Extract); ok {
+						if ta, ok := ex.Tuple.(*ssa.TypeAssert); ok && ex.Index == 0 {
+							recv = ta.X
+							continue
+						}
+					}
+					break
+				}
+				if recv == c.Common().Args[0] || !isNamed(recv.Type(), pkgUtil, "NodeDB") {
+					return
+				}
+			default:
+				return
+			}
 			if !reads[m] && !writes[m] && m != "RecordDeadNodes" && m != "PruneBelowVersion" {
 				return
 			}
-			fld := fieldLoadOf(c.Common().Value)
+			fld := fieldLoadOf(recv)
 			construct := o.next(fn(f) + "|" + m)
 			n++
 			r.CallSites++
